@@ -30,9 +30,21 @@ func HarnessC06Crash() {
 	path := verifTempPath("c06.updog")
 	rows := verifC06Rows()
 	ncols := 16
-	switch verifChoice("size", 3) {
+	switch verifChoice("size", 3+2*verifTier()) {
 	case 0:
 		rows = rows[:3] // a single batch
+	case 3:
+		// thorough: 2016 values (two full batches and a rest)
+		ncols = 32
+		rows = verifC06RowsN(ncols)
+	case 4:
+		// thorough: 1001 rows of one column (1001 values; the big writer also commits its
+		// temporary database once on the way)
+		ncols = 1
+		rows = nil
+		for r := 0; r < 1001; r++ {
+			rows = append(rows, map[string]string{"caa": string([]byte{'v', byte('0' + r/1000), byte('0' + r/100%10), byte('0' + r/10%10), byte('0' + r%10)})})
+		}
 	case 2:
 		// 5040 values, ~100 KB of keys and bitmaps: several batches and beyond the 64 KiB
 		// transaction size tools such as bbolt's Compact use
